@@ -447,16 +447,20 @@ def chart_case(case, ctx):
 BITS = 8
 
 
-def pattern_plotter(calls, vary=False):
+def pattern_plotter(calls, vary=False, offset=0):
     """Plot function that encodes k = number of scheduled operations as
     [black][8 bit blocks, black = 1][black] on a white figure."""
 
     def plot(schedule, makespan=None, available_operations=None, current_time=None):
         k = schedule.num_scheduled_operations
         calls.append(k)
+        k += offset  # (marks the frames of one run apart from another run's)
         # (vary: frames of different pixel widths, as figures with a tight
         # bounding box have)
-        fig = plt.figure(figsize=(2.4 + (0.8 if vary and k % 3 != 1 else 0.0), 0.4), dpi=50)
+        # (vary: wide-and-low and narrow-and-tall frames: no frame is largest in
+        # both dimensions)
+        wide = vary and k % 3 != 1
+        fig = plt.figure(figsize=(2.4 + (0.8 if wide else 0.0), 0.4 if wide or not vary else 0.52), dpi=50)
         fig.patch.set_facecolor("white")
         ax = fig.add_axes([0.05, 0.1, 0.9, 0.8])
         row = [0.0] + [0.0 if (k >> (BITS - 1 - i)) & 1 else 1.0 for i in range(BITS)] + [0.0]
@@ -741,6 +745,22 @@ def anim_case(case, ctx):
                         f"remove_frames=False: frames directory holds {len(os.listdir(fdir2)) if os.path.isdir(fdir2) else 'nothing'} files for {n} operations",
                     )
             if mode == "order" and n >= 100:
+                # frames kept on request from a run of 60 operations, then the
+                # whole history animated into the same directory
+                fdir3 = os.path.join(tmp, "kept_frames_60_then_all")
+                for part, tag, off in ((history[:60], "fd_60.gif", 128), (history, "fd_all.gif", 0)):
+                    del calls[:]
+                    path4 = os.path.join(tmp, tag)
+                    create_gantt_chart_gif(
+                        instance, gif_path=path4, plot_function=pattern_plotter(calls, offset=off), schedule_history=part, fps=10,
+                        frames_dir=fdir3, remove_frames=False,
+                    )
+                    got4 = [decode(f) - off for f in imageio.mimread(path4, memtest=False)]
+                    ctx.check(
+                        got4 == list(range(1, len(part) + 1)),
+                        "frame-order-kept-frames",
+                        f"{tag} ({len(part)} operations, frames kept in a directory used before): decodes to {got4[:8]}...{got4[-4:]} (len {len(got4)})",
+                    )
                 # a second, short animation written to the same path
                 del calls[:]
                 create_gantt_chart_gif(
